@@ -374,10 +374,54 @@ func init() {
 				pcs = append(pcs, pc)
 			}
 		}
-		res := runCases(c, pcs)
+		// the same limits through the YAML methods (--extra-imports), under the default tag list and under lists
+		// without `yaml` (names that are their own lower-cased field names, so that yaml.v3 still binds them: K37)
+		var ypcs []*core.PCase
+		for _, tags := range [][]string{nil, {"json"}, {"json", "mapstructure"}, {"yaml"}} {
+			schema := sgen.M{"type": "object", "required": []any{"codes"}, "properties": sgen.M{
+				"tags":  sgen.M{"type": "array", "items": sgen.M{"type": "string"}, "minItems": 1, "maxItems": 3},
+				"codes": sgen.M{"type": "array", "items": sgen.M{"type": "integer"}, "minItems": 1},
+				"opt":   sgen.M{"type": []any{"array", "null"}, "items": sgen.M{"type": "integer"}, "maxItems": 2},
+				"grid":  sgen.M{"type": "array", "maxItems": 2, "items": sgen.M{"type": "array", "items": sgen.M{"type": "integer"}, "maxItems": 2}}}}
+			var docs []any
+			for n := 0; n <= 4; n++ {
+				ts, is := []any{}, []any{}
+				for k := 0; k < n; k++ {
+					ts = append(ts, fmt.Sprintf("t%d", k))
+					is = append(is, k)
+				}
+				docs = append(docs, M{"codes": []any{1}, "tags": ts}, M{"codes": is}, M{"codes": []any{1}, "opt": is}, M{"codes": []any{1}, "grid": []any{is}}, M{"codes": []any{1}, "grid": []any{[]any{1}, []any{2}, is}[:min(n, 3)]})
+			}
+			pc := baseCase("c07-yaml", schema, docs, string(PosOptional), "depth<=2", "in-scope", "tags="+strings.Join(tags, ","))
+			pc.Cfg.ExtraImports = true
+			if tags != nil {
+				pc.Cfg.Tags = tags
+			}
+			ypcs = append(ypcs, pc)
+		}
+		res := runCases(c, append(pcs, ypcs...))
 		fails += verdictOracle(c, res, "array length limits", func(r *core.PResult, i int) bool {
 			return r.Case.Labels[2] == "K2-region"
 		})
+		for _, r := range res {
+			if r.Case.Stream != "c07-yaml" || r.RunsY == nil {
+				continue
+			}
+			for i := range r.DocJSON {
+				if i >= len(r.ModelRuns) {
+					continue
+				}
+				spec, y := r.ModelRuns[i].Spec, r.RunsY[i].Kind
+				c.Eval("c07-yaml|" + r.Case.Labels[3] + "|" + spec + "|" + y + "|" + classOfDoc(r.DocJSON[i]))
+				c.Count("yaml verdict", r.Case.Labels[3]+": "+spec+"/"+y)
+				if (spec == "valid") != (y == "ok") {
+					fails++
+					if fails <= 3 {
+						c.Fail("oracle", fmt.Sprintf("array length limits through UnmarshalYAML (%s): reference says %s, generated code says %s (%s)", r.Case.Labels[3], spec, y, clip(r.RunsY[i].Msg, 160)), replayOf(r, i, M{"wire": "yaml"}), false)
+					}
+				}
+			}
+		}
 		res = append(res, cres...)
 		for _, r := range res {
 			if len(c.Samples) < 6 && len(r.DocJSON) > 1 {
